@@ -8,6 +8,7 @@ from ..srcmodel import unparse, norm, walk_no_nested, calls_in, fold_const
 from .common import is_method_call, get_kw, node_obj, fde_guard, F3, parent_chain
 from .tagtable import constructors
 from . import tr
+from . import unitrules
 from ..fde import Opaque
 
 from .common import Guard, thorough  # noqa: E402
@@ -21,6 +22,7 @@ DECIDED = [
     'R6: PathNode.ayns.value carries source_file for every spelling of the reference points that evaluation resolves against the node\'s own file (file, parent, parent(n)).',
     'R7: the representer (and the helpers only it uses) writes no module / class level state.',
     'R5: a tagged scalar is written as repr() of its native value (quoting preserved so that the implicit resolver gives the same type back).',
+    'R8: the tag of a !call / !bind node names its target both for a stored name and for a resolved callable (module.name). R9: every AwesomeyamlDumper method that overrides a PyYAML method hands its arguments to the overridden method on every completing path (only the unquoted-output switch may answer by itself) and returns its result. R10: AwesomeyamlLoader._convert fills a missing stage index / source file from the parse context and keeps existing ones.',
 ]
 UNDECIDED = ['the round trip as a whole (text stability, scalar quoting by PyYAML, metadata pickling);', 'priority elision for trees produced by merging (children attached later carry no priority).']
 FLAGS = ['priority', 'delete', 'allow_new', 'safe']
@@ -442,11 +444,17 @@ def check(repo, run, tier):
     g(r5, repo, run)
     g(r6, repo, run)
     g(r7, repo, run)
+    g(unitrules.function_tags, repo, run, 'C18.R8')
+    g(unitrules.overrides_delegate, repo, run, 'C18.R9', 'AwesomeyamlDumper')
+    g(unitrules.wrapped_node_origin, repo, run, 'C18.R10')
     g.done()
 
 
 def mutants(repo):
     return [
+        Mutant('write-plain-does-not-delegate', lambda r: in_func(r, 'AwesomeyamlDumper.write_plain', "        super().write_plain(text, *args, **kwargs)\n", "        pass\n"), ['C18.R9']),
+        Mutant('bind-tag-of-callable', lambda r: in_func(r, 'BindNode.ayns.tag', "if not isinstance(_func, str):", "if isinstance(_func, str):"), ['C18.R8']),
+        Mutant('source-file-overwritten', lambda r: in_func(r, 'AwesomeyamlLoader._convert', "if ret._source_file is None:", "if ret._source_file is not None:"), ['C18.R10']),
         Mutant('F15-reverted-safe-unregistered', lambda r: in_module(r, 'yaml', "add_constructor('!safe', _safe_constructor)\n", ""), ['C18.R1']),
         Mutant('writer-swaps-new-notnew', lambda r: in_func(r, 'yaml._node_representer', "            True: '!new',\n            False: '!notnew'", "            True: '!notnew',\n            False: '!new'"), ['C18.R1']),
         Mutant('eval-tag-renamed-on-write', lambda r: in_func(r, 'EvalNode.ayns.tag', "return '!eval'", "return '!evaluate'"), ['C18.R1']),
